@@ -143,7 +143,7 @@ func (w *world) line(tok int) string {
 	// the old one" happens in reality whenever it happens in the model
 	total := 48
 	if tok%3 == 0 {
-		total = 5000
+		total = 10000 // its first half alone exceeds the read buffer
 	}
 	const al = "abcdefghijklmnopqrstuvwxyz0123456789 =:()\"'"
 	prefix := fmt.Sprintf("L%d-", tok)
@@ -201,7 +201,7 @@ func runMem(id int, sc Scenario, inits []InitDef, seed int64) Rec {
 		entries = append(entries, dirEntry{name})
 	}
 	mainPath := filepath.Join(dir, "audit.log")
-	partialTok := 50
+	partialTok := 51
 	partialHead := ""
 	if in.HasLive {
 		var b []byte
